@@ -535,7 +535,7 @@ HParse ==
   /\ stage = "hist" /\ Len(calls) < MaxCalls
   /\ \E o \in Options(be) : OptionOK(be, o) /\ opt' = o
   /\ UNCHANGED <<stage, env, pick, query, tsel, be>>
-  /\ calls' = Append(calls, ParseCall(calls)')
+  /\ \E cs \in {calls} : calls' = Append(cs, ParseCall(cs)')      \* the expectation is evaluated in the state after the call
 
 \* the expectation of a parse is a function of the last selection before it and of its own options
 LastSelect(k) == IF \E i \in 1..(k - 1) : calls[i].op = "select"
